@@ -107,10 +107,10 @@ enum Live {
     Srat(srat::SRAT),
     Slit(slit::SLIT),
     Hmat(hmat::HMAT),
-    Pptt(pptt::PPTT, Vec<pptt::CacheHandle>, Vec<pptt::ProcessorHandle>),
-    Rhct(rhct::RHCT, Vec<rhct::IsaStringHandle>, Vec<rhct::CmoHandle>),
-    Rimt(rimt::RIMT, Vec<rimt::IommuOffset>),
-    Viot(viot::VIOT, Vec<viot::TranslationHandle>),
+    Pptt(pptt::PPTT, Vec<Option<pptt::CacheHandle>>, Vec<Option<pptt::ProcessorHandle>>),
+    Rhct(rhct::RHCT, Vec<Option<rhct::IsaStringHandle>>, Vec<Option<rhct::CmoHandle>>),
+    Rimt(rimt::RIMT, Vec<Option<rimt::IommuOffset>>),
+    Viot(viot::VIOT, Vec<Option<viot::TranslationHandle>>),
     Cedt(cedt::CEDT),
     Hest(hest::HEST),
     Rqsc(rqsc::RQSC),
@@ -351,7 +351,7 @@ pub fn mk_side_cache(pd: u32, size: u64, total: u8, level: u8, assoc: u8, policy
     c
 }
 
-pub fn mk_cache_node(sets: &[CacheSet], caches: &[pptt::CacheHandle]) -> pptt::CacheNode {
+pub fn mk_cache_node(sets: &[CacheSet], caches: &[Option<pptt::CacheHandle>]) -> pptt::CacheNode {
     let mut b = pptt::CacheNodeBuilder::default();
     for s in sets {
         b = match s {
@@ -371,7 +371,7 @@ pub fn mk_cache_node(sets: &[CacheSet], caches: &[pptt::CacheHandle]) -> pptt::C
             CacheSet::Policy(v) => b.write_policy(if *v == 0 { pptt::WritePolicy::Writeback } else { pptt::WritePolicy::Writethrough }),
             CacheSet::Line(v) => b.line_size(*v),
             CacheSet::Id(v) => b.id(*v),
-            CacheSet::Next(i) => b.next_level(&caches[*i as usize]),
+            CacheSet::Next(i) => b.next_level(caches[*i as usize].as_ref().expect("handle of a refused add")),
         };
     }
     b.to_node()
@@ -383,10 +383,10 @@ pub fn mk_proc_node(
     flags: &[u8],
     res: &[u32],
     raw_flags: &Option<u32>,
-    caches: &[pptt::CacheHandle],
-    procs: &[pptt::ProcessorHandle],
+    caches: &[Option<pptt::CacheHandle>],
+    procs: &[Option<pptt::ProcessorHandle>],
 ) -> pptt::ProcessorNode {
-    let mut n = pptt::ProcessorNode::new(parent.map(|i| &procs[i as usize]), id);
+    let mut n = pptt::ProcessorNode::new(parent.map(|i| procs[i as usize].as_ref().expect("handle of a refused add")), id);
     if let Some(f) = raw_flags {
         n.flags = *f;
     }
@@ -400,15 +400,15 @@ pub fn mk_proc_node(
         };
     }
     for r in res {
-        n = n.add_cache(&caches[*r as usize]);
+        n = n.add_cache(caches[*r as usize].as_ref().expect("handle of a refused add"));
     }
     n
 }
 
-fn mk_idmaps(maps: &Option<Vec<IdMap>>, iommus: &[rimt::IommuOffset]) -> Option<Vec<rimt::IdMapping>> {
+fn mk_idmaps(maps: &Option<Vec<IdMap>>, iommus: &[Option<rimt::IommuOffset>]) -> Option<Vec<rimt::IdMapping>> {
     maps.as_ref().map(|v| {
         v.iter()
-            .map(|m| rimt::IdMapping::new(m.src, m.dst, m.n, iommus[m.iommu as usize], m.ats, m.pri, m.rciep))
+            .map(|m| rimt::IdMapping::new(m.src, m.dst, m.n, iommus[m.iommu as usize].expect("handle of a refused add"), m.ats, m.pri, m.rciep))
             .collect()
     })
 }
@@ -783,6 +783,29 @@ pub fn apply_sdt(t: &mut sdt::Sdt, o: &SdtOp) {
 }
 
 impl Live {
+    /// a refused add returns no handle: keep the handle numbering of the program
+    fn handle_lost(&mut self, op: &Op) {
+        match (self, op) {
+            (Live::Pptt(_, c, _), Op::PpttCache { .. }) => c.push(None),
+            (Live::Pptt(_, _, p), Op::PpttProc { .. }) => p.push(None),
+            (Live::Rhct(_, i, _), Op::RhctIsa(..)) => i.push(None),
+            (Live::Rhct(_, _, c), Op::RhctCmo(..)) => c.push(None),
+            (Live::Rimt(_, i), Op::RimtIommu { .. }) => i.push(None),
+            (Live::Viot(_, h), Op::ViotPciIommu(..)) | (Live::Viot(_, h), Op::ViotMmioIommu(..)) => h.push(None),
+            _ => {}
+        }
+    }
+    fn handle_count(&self, op: &Op) -> usize {
+        match (self, op) {
+            (Live::Pptt(_, c, _), Op::PpttCache { .. }) => c.len(),
+            (Live::Pptt(_, _, p), Op::PpttProc { .. }) => p.len(),
+            (Live::Rhct(_, i, _), Op::RhctIsa(..)) => i.len(),
+            (Live::Rhct(_, _, c), Op::RhctCmo(..)) => c.len(),
+            (Live::Rimt(_, i), Op::RimtIommu { .. }) => i.len(),
+            (Live::Viot(_, h), Op::ViotPciIommu(..)) | (Live::Viot(_, h), Op::ViotMmioIommu(..)) => h.len(),
+            _ => 0,
+        }
+    }
     fn image(&self) -> Vec<u8> {
         match self {
             Live::Xsdt(t) => ser(t),
@@ -850,18 +873,18 @@ impl Live {
                 let n = mk_cache_node(sets, caches);
                 let h = t.add_cache(n);
                 hs.push(HandleRec { kind: HKind::Cache, value: dbg_num(&h), op: idx });
-                caches.push(h);
+                caches.push(Some(h));
             }
             (Live::Pptt(t, caches, procs), Op::PpttProc { parent, id, flags, res, raw_flags }) => {
                 let n = mk_proc_node(parent, *id, flags, res, raw_flags, caches, procs);
                 let h = t.add_processor(n);
                 hs.push(HandleRec { kind: HKind::Proc, value: dbg_num(&h), op: idx });
-                procs.push(h);
+                procs.push(Some(h));
             }
             (Live::Rhct(t, isas, _), Op::RhctIsa(len)) => {
                 let h = t.add_isa_string(static_text(*len as usize));
                 hs.push(HandleRec { kind: HKind::Isa, value: dbg_num(&h), op: idx });
-                isas.push(h);
+                isas.push(Some(h));
             }
             (Live::Rhct(t, ..), Op::RhctMmu(s)) => t.add_mmu_node(match s {
                 0 => rhct::VirtualAddressScheme::Sv39,
@@ -871,12 +894,12 @@ impl Live {
             (Live::Rhct(t, _, cmos), Op::RhctCmo(a, b, c)) => {
                 let h = t.add_cmo(rhct::CmoNode::new(*a, *b, *c));
                 hs.push(HandleRec { kind: HKind::Cmo, value: dbg_num(&h), op: idx });
-                cmos.push(h);
+                cmos.push(Some(h));
             }
             (Live::Rhct(t, isas, cmos), Op::RhctHart { uid, isa, cmos: cs }) => {
-                let mut n = rhct::HartInfoNode::new(*uid, &isas[*isa as usize]);
+                let mut n = rhct::HartInfoNode::new(*uid, isas[*isa as usize].as_ref().expect("handle of a refused add"));
                 for c in cs {
-                    n = n.with_cmo(&cmos[*c as usize]);
+                    n = n.with_cmo(cmos[*c as usize].as_ref().expect("handle of a refused add"));
                 }
                 t.add_hart_info(n);
             }
@@ -885,7 +908,7 @@ impl Live {
                 let io = rimt::Iommu::new(*id, *base, pci.map(|b| rimt::PciDevice::new(b.seg, b.bus, b.dev, b.func)), *prox, w);
                 let h = t.add_iommu(io);
                 hs.push(HandleRec { kind: HKind::Iommu, value: iommu_offset_value(h), op: idx });
-                iommus.push(h);
+                iommus.push(Some(h));
             }
             (Live::Rimt(t, iommus), Op::RimtRc { id, seg, ats, pri, maps }) => {
                 t.add_pcie_root_complex(rimt::PcieRootComplex::new(*id, *seg, *ats, *pri, mk_idmaps(maps, iommus)))
@@ -896,19 +919,19 @@ impl Live {
             (Live::Viot(t, hv), Op::ViotPciIommu(b)) => {
                 let h = t.add_virtio_pci_iommu(viot::VirtIoPciIommu::new(viot::PciDevice::new(b.seg, b.bus, b.dev, b.func)));
                 hs.push(HandleRec { kind: HKind::Viot, value: viot_handle_value(&h), op: idx });
-                hv.push(h);
+                hv.push(Some(h));
             }
             (Live::Viot(t, hv), Op::ViotMmioIommu(b)) => {
                 let h = t.add_virtio_mmio_iommu(viot::VirtIoMmioIommu::new(*b));
                 hs.push(HandleRec { kind: HKind::Viot, value: viot_handle_value(&h), op: idx });
-                hv.push(h);
+                hv.push(Some(h));
             }
             (Live::Viot(t, hv), Op::ViotPciRange { first, last, h }) => t.add_pci_range(viot::PciRange::new(
                 viot::PciDevice::new(first.seg, first.bus, first.dev, first.func),
                 viot::PciDevice::new(last.seg, last.bus, last.dev, last.func),
-                &hv[*h as usize],
+                hv[*h as usize].as_ref().expect("handle of a refused add"),
             )),
-            (Live::Viot(t, hv), Op::ViotMmioEp { id, base, h }) => t.add_mmio_endpoint(viot::MmioEndpoint::new(*id, *base, &hv[*h as usize])),
+            (Live::Viot(t, hv), Op::ViotMmioEp { id, base, h }) => t.add_mmio_endpoint(viot::MmioEndpoint::new(*id, *base, hv[*h as usize].as_ref().expect("handle of a refused add"))),
             (Live::Cedt(t), Op::Chbs(u, v, b)) => {
                 t.add_host_bridge(cedt::CxlHostBridge::new(*u, if *v == 0 { cedt::CxlVersion::Cxl1_1 } else { cedt::CxlVersion::Cxl2 }, *b))
             }
@@ -1014,10 +1037,14 @@ pub fn drive_with(p: &Program, flat: &[Op], policy: &dyn Fn(usize, usize) -> boo
         obs(&Obs { step: 0, image: &img, refused: false, handles: &handles, sdt_view: view });
     }
     for (i, op) in flat.iter().enumerate() {
+        let before = live.handle_count(op);
         let r = catch_unwind(AssertUnwindSafe(|| live.apply(op, i, &mut handles)));
         let refused = r.is_err();
         if refused {
             res.refused_ops.push(i);
+            if live.handle_count(op) == before {
+                live.handle_lost(op);
+            }
         }
         let step = i + 1;
         if refused || policy(step, total) {
@@ -1042,7 +1069,10 @@ pub fn with_table(p: &Program, flat: &[Op], k: &mut dyn FnMut(&dyn Aml)) -> bool
     let Ok(mut live) = catch_unwind(AssertUnwindSafe(|| construct(p))) else { return false };
     let mut hs = Vec::new();
     for (i, op) in flat.iter().enumerate() {
-        let _ = catch_unwind(AssertUnwindSafe(|| live.apply(op, i, &mut hs)));
+        let before = live.handle_count(op);
+        if catch_unwind(AssertUnwindSafe(|| live.apply(op, i, &mut hs))).is_err() && live.handle_count(op) == before {
+            live.handle_lost(op);
+        }
     }
     match &live {
         Live::Xsdt(t) => k(t),
